@@ -353,4 +353,61 @@ mod verif_replay_expr_dm {
         let fresh = dm.execute(&Data::Source(SourceCode::new("v + 1", 0))).map(|d| d.lock().unwrap().to_string());
         assert_eq!(fresh, second);
     }
+
+    /// C11 (bounded-exhaustive): every built-in function called with 0..3 arguments out of seven values of different
+    /// types, as `f(args)` and as `first.f(rest)`, returns a value or an error; none panics (5,600 calls)
+    #[test]
+    fn verif_replay_builtin_functions_never_panic() {
+        use crate::expression_engine::parser::ExpressionParser;
+        let functions = ["indexOf", "length", "isDefined", "abs", "toString", "log", "nosuchfunction"];
+        let values = ["'abc'", "1", "[1,2]", "{'k':1}", "null", "true", "1.5"];
+        let fresh = || {
+            let gd = create_global_data_arc();
+            RFsmExpressionDatamodel::add_internal_functions_to_wrapper(&mut gd.lock().unwrap().actions);
+            gd
+        };
+        let mut gd = fresh();
+        let mut panicked: Vec<String> = Vec::new();
+        let mut calls = 0usize;
+        for f in functions {
+            for n in 0..=3usize {
+                let mut idx = vec![0usize; n];
+                loop {
+                    let args: Vec<&str> = idx.iter().map(|i| values[*i]).collect();
+                    let mut texts = vec![format!("{}({})", f, args.join(", "))];
+                    if n >= 1 {
+                        texts.push(format!("{}.{}({})", args[0], f, args[1..].join(", ")));
+                    }
+                    for text in texts {
+                        let (t2, g2) = (text.clone(), gd.clone());
+                        let r = std::panic::catch_unwind(std::panic::AssertUnwindSafe(move || {
+                            let mut g = g2.lock().unwrap();
+                            let _ = ExpressionParser::execute(t2, &mut g);
+                        }));
+                        if r.is_err() {
+                            if panicked.len() < 5 {
+                                panicked.push(text);
+                            }
+                            gd = fresh();
+                        }
+                        calls += 1;
+                    }
+                    let mut k = 0;
+                    while k < n {
+                        idx[k] += 1;
+                        if idx[k] < values.len() {
+                            break;
+                        }
+                        idx[k] = 0;
+                        k += 1;
+                    }
+                    if k == n {
+                        break;
+                    }
+                }
+            }
+        }
+        assert!(calls > 5000);
+        assert!(panicked.is_empty(), "these calls panicked instead of returning an error: {:?}", panicked);
+    }
 }
